@@ -180,6 +180,13 @@ class CallMixin:
                     return r
             if f.id in NOOP_CALLS:
                 return T.sv_none()
+            bm = p.env.get(f.id)
+            if bm is not None and bm.ty == T.BOUND:
+                # add_visited = visited.add ; ... ; add_visited(x)   ==   visited.add(x)
+                call = ast.copy_location(ast.Call(func=ast.copy_location(ast.Attribute(value=ast.copy_location(ast.Name(id=bm.obj, ctx=ast.Load()), e),
+                                                                                      attr=bm.attr, ctx=ast.Load()), e), args=e.args, keywords=e.keywords), e)
+                self.call_ord[id(call)] = self.call_ord.get(id(e), 0)
+                return self.ev_Call(call, p)
             b = getattr(self, "bi_" + f.id, None)
             if b is not None:
                 return b(e, p)
@@ -370,6 +377,12 @@ class CallMixin:
             return T.scalar(st, s)
         raise Unsupported(f"set() of {v.ty}")
 
+    def bi_deque(self, e, p):
+        """collections.deque(iterable): a list whose order is not modelled."""
+        if not e.args:
+            return SV(T.EMPTYLIST)
+        return self.as_listing(self._one(e, p), p)
+
     def bi_zip(self, e, p):
         """zip(a, b) of two positional lists: the positional list of pairs, as long as the shorter one."""
         if len(e.args) != 2 or e.keywords:
@@ -479,9 +492,36 @@ class CallMixin:
     # ---- container methods
     def container_method(self, recv, f, e, p):
         name = f.attr
-        args = [self.ev(a, p) for a in e.args]
+        if name == "extend" and len(e.args) == 1 and isinstance(e.args[0], ast.GeneratorExp):
+            # xs.extend(<generator>): the generator is consumed at once, like the list built from it
+            lc = ast.copy_location(ast.ListComp(elt=e.args[0].elt, generators=e.args[0].generators), e.args[0])
+            args = [self.ev(lc, p)]
+        else:
+            args = [self.ev(a, p) for a in e.args]
         note = f"line {e.lineno}"
         rt = recv.ty
+        if isinstance(rt, T.Bag) and name == "extend":
+            o = args[0]
+            if o.ty == T.EMPTYLIST:
+                return T.sv_none()
+            if not (isinstance(o.ty, T.Bag) and o.ty.e == rt.e):
+                raise Unsupported(f"extend of {rt} with {o.ty}")
+            x = fresh("x", rt.e.sort())
+            out = fresh("extended", rt.sort())
+            self._assume(p, z3.ForAll([x], out[x] == recv.t[x] + o.t[x], patterns=[out[x]]))
+            self._assume(p, rt.blen()(out) == rt.blen()(recv.t) + rt.blen()(o.t))
+            self.store(f.value, T.scalar(rt, out), p)
+            return T.sv_none()
+        if isinstance(rt, T.Bag) and name in ("popleft", "pop") and not args:
+            # which element leaves a queue / stack is not modelled (the order of a bag is not): some element that is in it
+            self._raise_if(p, rt.blen()(recv.t) <= 0, "IndexError", note)
+            x = fresh("popped", rt.e.sort())
+            self._assume(p, recv.t[x] >= 1)
+            nb = z3.Store(recv.t, x, recv.t[x] - 1)
+            nv = self.named(T.scalar(rt, nb), p, "bag")
+            self._assume(p, rt.blen()(nv.t) == rt.blen()(recv.t) - 1)
+            self.store(f.value, nv, p)
+            return T.scalar(rt.e, x)
         if rt == T.EMPTYLIST and name == "append":
             et = args[0].ty
             hint = None
